@@ -134,6 +134,23 @@ func runC18(p *an.Prog, r *an.Run, tier string) {
 		if !an.Dominates(R, D) {
 			bad = append(bad, "DisconnectPeer does not follow RemoveTrustedPeer")
 		}
+		// every element of the invalid list is processed: no path through the loop body skips the pair
+		if hdr := loopHeader(R.Block()); hdr != nil {
+			for _, s := range hdr.Succs {
+				inBody := false
+				for _, b := range reachBlocks(s) {
+					if b == hdr {
+						inBody = true
+					}
+				}
+				if !inBody {
+					continue
+				}
+				if in := pathFromBlock(up, s, isR, func(x ssa.Instruction) bool { return x.Block() == hdr }); in != nil {
+					bad = append(bad, "an invalid peer can be skipped: a path through the loop body returns to the loop head without un-trusting and disconnecting the peer")
+				}
+			}
+		}
 		ra, da := methodArgs(rem[0]), methodArgs(dis[0])
 		if ra[1] != da[1] {
 			bad = append(bad, "RemoveTrustedPeer and DisconnectPeer are given different ids")
@@ -266,6 +283,26 @@ func runC18(p *an.Prog, r *an.Run, tier string) {
 				bad = append(bad, "the strict-mode lookup is not id -> remote host of the pool's ActivePeers")
 			}
 		}
+	}
+	// the host comparison relies on NodeURI.RemoteHost being the URL's Hostname() (brackets/port stripped; IPv6 intact)
+	if rh := p.Method("ethnode", "NodeURI", "RemoteHost"); rh != nil {
+		r.Analysed(an.FuncName(rh))
+		an.AllInstrs(rh, func(in ssa.Instruction) {
+			ret, ok := in.(*ssa.Return)
+			if !ok {
+				return
+			}
+			v := an.RetResults(ret)[0]
+			if s, ok := an.ConstString(v); ok && s == "" {
+				return
+			}
+			if c, ok := v.(*ssa.Call); ok && an.IsMethod(an.CallObj(c), "net/url", "URL", "Hostname") {
+				return
+			}
+			bad = append(bad, "NodeURI.RemoteHost returns something other than the URL's Hostname() at "+p.Pos(ret.Pos())+" (hand-made host/port splitting breaks IPv6 literals, so different hosts compare equal in strict mode)")
+		})
+	} else {
+		bad = append(bad, "ethnode.NodeURI.RemoteHost not found")
 	}
 	r.Check(len(bad) == 0, "invalid-list", name, up.Pos(), "pool's list untouched unless strict; strict: local peers minus (active id with equal host)", "%s", strings.Join(dedup(bad), "; "))
 
